@@ -197,6 +197,12 @@ def run_unit_stable(unit, threads=4, seed=None):
     solver instance (-V spinoff-all): after one failed query the shared Z3 process was observed to fail the *next*
     function too, so only the isolated run names obligations.  rlimit-type results are retried once with 4x rlimit."""
     r = classify(run_unit(unit, threads=threads, seed=seed))
+    try:
+        known = set(x.get("obligation") for x in json.load(open(os.path.join(VERIF, "known_findings.json")))["findings"] if x.get("status") == "known")
+    except Exception:
+        known = set()
+    if r["status"] == "violation" and all("%s/%s" % (unit, f.get("fn")) in known for f in r.get("failed", [])):
+        return r  # only the residual obligations of recorded known findings failed: nothing to re-attribute
     if r["status"] == "violation" or (r["status"] == "undecided" and r.get("undecided_errors")):
         r2 = classify(run_unit(unit, rlimit=40 if r["status"] == "undecided" else None, threads=max(threads, 8), seed=seed, spinoff=True))
         r2["first_attempt"] = {"status": r["status"], "failed": [f.get("fn") for f in r.get("failed", [])], "reason": r.get("reason")}
